@@ -264,13 +264,13 @@ def flatten_stream(ck, programs, shapes=()):
         if toks is None:
             ck.stat("flatten", "no-main-pipeline")
             continue
-        exprs.append("(fst (flat (list bool) [] 200 false None [] %s), (fst (carried_spec (list bool) [] 200 None [] %s), (tame_agg (list bool) 200 false %s, tame_nest (list bool) 200 None %s)))" % (it, it, it, it))
+        exprs.append("(fst (flat (list bool) [] 200 false None [] %s), (fst (carried_spec (list bool) [] 200 None [] %s), tame_nest (list bool) 200 None %s))" % (it, it, it))
         meta.append((src, it, toks))
     header = "From Coq Require Import List Bool.\nFrom PV Require Import Model.Flatten.\nImport ListNotations.\n"
     vals = coq_eval(header, exprs) if exprs else []
-    for (src, it, toks), (v, (spec, (tame_a, tame_n))) in zip(meta, vals):
+    for (src, it, toks), (v, (spec, tame_n)) in zip(meta, vals):
         ck.count("flatten", src)
-        ck.stat("flatten", "tame" if (tame_a and tame_n) else "not-tame")
+        ck.stat("flatten", "tame" if tame_n else "not-tame")
         for tag in ("PAgg", "PGroup", "PWindow", "PSub"):
             if tag in it:
                 ck.stat("flatten", "has:" + tag)
@@ -287,14 +287,14 @@ def flatten_stream(ck, programs, shapes=()):
                             {"prql": src, "items": it, "implementation_rq": toks, "model": got}, lambda c: None)
         # implementation vs SPECIFICATION (carried_spec: the order in effect at every take / windowed compute).  Inside the
         # class `tame` this follows from the comparison above (c03_flattener_carries_order_in_effect_partial); outside of it
-        # it is finding F44 (an aggregate inside a group body that is not the last transform of the body) or F45 (a group
-        # nested in a group with a non-empty key)
+        # it is finding F45 (a group nested in a group with a non-empty key); F44 (an aggregate inside a group body did not
+        # end the sort) is FIXED by f809321 and excuses nothing
         carried = [(t[1], t[2]) for t in toks if t[0] != "OSort"]
         want = [(pb, list(k)) for pb, k in spec]
         if carried != want:
             ck.disagreement("flattener: a take / window function is handed a sort that is not the order in effect at its position: %s" % src.replace("\n", " | ")[:220],
                             {"prql": src, "items": it, "implementation_rq": toks, "specification": want},
-                            lambda c, a=tame_a, n=tame_n: ("F45-nested-group-partition" if not n else ("F44-grouped-aggregate-keeps-sort" if not a else None)))
+                            lambda c, n=tame_n: ("F45-nested-group-partition" if not n else None))
 
 
 def main_order_by(sql):
